@@ -666,7 +666,7 @@ def create(spec, yaw):
         tab = pa.table({k: np.asarray(v) for k, v in use.items()})
         with pq.ParquetWriter(path, tab.schema) as wr:
             cs = spec["cs"]
-            pattern = r.choice([None, [cs // 2 + 1, 1, 1, 1], [2, 1], [max(1, cs - 2), 1, 1], [cs + 1, 2, 1, 1, 1, 1]])
+            pattern = r.choice([None, [(cs + 1) // 2, 1], [(cs + 1) // 2, 1], [cs // 2 + 1, 1, 1, 1], [2, 1], [max(1, cs - 2), 1, 1], [cs + 1, 2, 1, 1, 1, 1]])
             pos = k = 0
             while pos < len(tab):
                 step = r.randrange(1, cs + 2) if pattern is None else pattern[k % len(pattern)]
